@@ -514,6 +514,9 @@ func checkSnapshotRollback(c *an.Ctx, rule string) *provideShape {
 		if !ok {
 			return fail("Snapshot does not record len(gh.nodes)", nil)
 		}
+		if countIfs(sf) != 0 {
+			return fail("Snapshot records the node count only conditionally: a mark left over from an earlier, successful Provide is kept and a later rejection rolls back to it, removing graph nodes of accepted constructors", nil)
+		}
 	}
 	if rf := c.Fn(rule, "(*dig.graphHolder).Rollback"); rf != nil {
 		ok := false
